@@ -273,6 +273,54 @@ let () =
     | [s] -> show_res hex_of_bytes (decrypt_pkg (fun x -> x) (bytes_of_hex s))
     | _ -> "bad-args")
 
+(* ---- C11 stream writer ---- *)
+let parse_sval (t : string) : sval option =
+  if t = "_" then None else
+  match String.split_on_char ':' t with
+  | [st; f; has; ty; v; bad] ->
+    Some { sv_style = z_of_string st; sv_f = bytes_of_hex f; sv_has = bool_of_arg has; sv_t = z_of_string ty; sv_v = bytes_of_hex v; sv_bad = bool_of_arg bad }
+  | _ -> failwith ("bad sval " ^ t)
+
+let parse_sop (tok : string) : sop =
+  match String.split_on_char ',' tok with
+  | ["K"; col; s; ok] -> SColStyle (z_of_string col, z_of_string s, bool_of_arg ok)
+  | "R" :: col :: row :: rs :: ok :: vals -> SRow (z_of_string col, z_of_string row, z_of_string rs, bool_of_arg ok, List.map parse_sval vals)
+  | _ -> failwith ("bad sop " ^ tok)
+
+let () =
+  reg "c11.run" (fun a -> match a with
+    | c0 :: r0 :: w :: h :: ops ->
+      let c0 = int_of_string c0 and r0 = int_of_string r0 and w = int_of_string w and h = int_of_string h in
+      let sops = List.map parse_sop ops in
+      (* acceptance of every call, in order *)
+      let acc = Buffer.create 16 in
+      let st = List.fold_left (fun st o ->
+        let (ok, st') = (match o with
+          | SRow (col, row, rs, k, vals) -> set_row st col row rs k vals
+          | SColStyle (col, s, k) -> Model_gen.set_col_style0 st col s k) in
+        Buffer.add_string acc (str_bool ok); st') sw_init sops in
+      let sh = Model_gen.flush0 st in
+      let buf = Buffer.create 256 in
+      for r = r0 to r0 + h - 1 do
+        for c = c0 to c0 + w - 1 do
+          Buffer.add_char buf ' ';
+          let (((k, v), f), s) = kview (Model_gen.w sh (z_of_int c) (z_of_int r)) in
+          (* the cached value of a formula cell is not part of the compared projection *)
+          let v = (match f with Some _ -> [] | None -> v) in
+          Buffer.add_string buf (string_of_z k ^ ":" ^ hex_of_bytes v ^ ":" ^ (match f with Some x -> hex_of_bytes x | None -> "-") ^ ":" ^ string_of_z s)
+        done
+      done;
+      Buffer.contents acc ^ " " ^ String.concat "," (List.map (fun r -> string_of_z r.r_r) st.sw_out) ^ " |" ^ Buffer.contents buf
+    | _ -> "bad-args");
+  (* buffered writer: W<hex> writes, S syncs (temp file can be created), s syncs (cannot); prints contents and whether spilled *)
+  reg "c11.bw" (fun a -> match a with
+    | chunk :: ops ->
+      let b = List.fold_left (fun b t ->
+        let o = if t = "S" then BSync true else if t = "s" then BSync false else BWrite (bytes_of_hex (String.sub t 1 (String.length t - 1))) in
+        bw_step (z_of_string chunk) b o) { bw_buf = []; bw_tmp = None } ops in
+      hex_of_bytes (bw_contents b) ^ " " ^ str_bool (b.bw_tmp <> None) ^ " " ^ string_of_int (List.length b.bw_buf)
+    | _ -> "bad-args")
+
 let () =
   reg "c17.run" (fun a ->
       let (ids, r) = run_styles (List.map z_of_string a) init_reg in
